@@ -342,6 +342,21 @@ class ConsInterp(Interp):
         self.module = fd.module
         self.npaths = 0
         self.loop_depth = 0
+        self.try_stack = []     # exception types caught by the enclosing try statements
+
+    def st_Try(self, n, st):
+        """inside a try body a reader call may also end by raising (TypeError / EOFError are the parser's errors): the
+        handler then runs with whatever the callee had consumed still unaccounted"""
+        from .interp import exc_matches
+        caught = set()
+        for exc in ('TypeError', 'EOFError', 'AssertionError'):
+            if any(exc_matches(exc, self.handler_types(h)) for h in n.handlers):
+                caught.add(exc)
+        self.try_stack.append(caught)
+        try:
+            return super().st_Try(n, st)
+        finally:
+            self.try_stack.pop()
 
     def where(self, n):
         return 'reader.py:%s' % getattr(n, 'lineno', '?')
@@ -876,6 +891,16 @@ class ConsInterp(Interp):
                     if r.kind == 'spacer' and r.status == 'live' and r.seq <= mark:
                         r.after_arg = True
             outs.append((v, s))
+        caught = set().union(*self.try_stack) if self.try_stack else set()
+        if caught and not peek:
+            for exc in sorted(caught & {'TypeError', 'EOFError'}):
+                s = st.copy()
+                s.epoch += 1
+                s.pending = None
+                s.new('call', n, 0, INF, 'tokens %s had consumed when it raised %s' % (fd.qual, exc), self.fd)
+                s.trail = s.trail + ('%s raises %s' % (fd.qual, exc),)
+                s.consumed = wadd(s.consumed, 0)
+                outs.append((Raised(exc, n, 'raised by %s' % fd.qual), s))
         return outs
 
     def is_noreturn(self, fd):
